@@ -17,7 +17,13 @@ import (
 	"os"
 	"path/filepath"
 
+	"io"
+
+	"github.com/berquerant/crd/chord"
 	"github.com/berquerant/crd/midix"
+	"github.com/berquerant/crd/note"
+	"github.com/berquerant/crd/op"
+	"github.com/berquerant/crd/play"
 
 	"verif/harness/internal/smf"
 )
@@ -131,6 +137,143 @@ func writerTrace(rng *rand.Rand, n int, maxCalls int) (rec, error) {
 	return rec{"kind": "wtrace", "n": n, "events": events, "written": f.Err == "", "final": final}, nil
 }
 
+// ---------------------------------------------------------------- play: calls made by the real play.MIDIWriter
+
+type recWriter struct{ calls [][]any }
+
+func ints(b []byte) []int {
+	r := []int{}
+	for _, x := range b {
+		r = append(r, int(x))
+	}
+	return r
+}
+func (r *recWriter) Note(value float64, velocity uint8, key ...uint8) error {
+	r.calls = append(r.calls, []any{"note", int(math.Round(960 * value)), int(velocity), ints(key)})
+	return nil
+}
+func (r *recWriter) Tempo(bpm int) { r.calls = append(r.calls, []any{"tempo", bpm}) }
+func (r *recWriter) Meter(num, denom uint8) {
+	r.calls = append(r.calls, []any{"meter", int(num), int(denom)})
+}
+func (r *recWriter) Key(key uint8, isMajor bool, num uint8, isFlat bool) {
+	r.calls = append(r.calls, []any{"key", int(key), isMajor, int(num), isFlat})
+}
+func (r *recWriter) Text(t string)   { r.calls = append(r.calls, []any{"text", ints([]byte(t))}) }
+func (r *recWriter) Lyric(t string)  { r.calls = append(r.calls, []any{"lyric", ints([]byte(t))}) }
+func (r *recWriter) Marker(t string) { r.calls = append(r.calls, []any{"marker", ints([]byte(t))}) }
+func (r *recWriter) Close()          { r.calls = append(r.calls, []any{"close"}) }
+func (r *recWriter) Rest(value float64) {
+	r.calls = append(r.calls, []any{"rest", int(math.Round(960 * value))})
+}
+func (r *recWriter) WriteTo(io.Writer) (int64, error) { return 0, nil }
+
+var keyNames = []string{"Cb", "Gb", "Db", "Ab", "Eb", "Bb", "F", "C", "G", "D", "A", "E", "B", "F#", "C#",
+	"Am", "Em", "Bm", "F#m", "C#m", "G#m", "D#m", "Dm", "Gm", "Cm", "Fm", "Bbm", "Ebm"}
+var symNames = []string{"", "m", "7", "maj7", "m7b5", "sus4", "dim7", "add9", "MinorNinth", "6"}
+
+func codes(s string) []int {
+	r := []int{}
+	for _, x := range s {
+		r = append(r, int(x))
+	}
+	return r
+}
+
+// playTrace builds a random document both as op.Instances (for the real play package) and in the abstract
+// form Piece.tla reads, and records the calls play.MIDIWriter.Write makes on the writer interface
+func playTrace(rng *rand.Rand, cmap *chord.Map) (rec, error) {
+	n := 1 + rng.Intn(8)
+	ins := []op.Instance{}
+	abs := []rec{}
+	for i := 0; i < n; i++ {
+		var in op.Instance
+		a := rec{"rest": true, "deg": []int{}, "base": []int{}, "sym": "", "bpm": 0, "meter": []int{}, "vel": "", "key": []int{}, "txt": []int{}, "lic": []int{}, "mrk": []int{}}
+		nv := 1 + rng.Intn(2)
+		vals := [][]int{}
+		for j := 0; j < nv; j++ {
+			f := [][2]uint{{1, 1}, {1, 2}, {2, 1}, {1, 3}, {3, 4}, {5, 4}, {7, 8}}[rng.Intn(7)]
+			v, err := note.NewValue(f[0], f[1])
+			if err != nil {
+				return nil, err
+			}
+			in.Values = append(in.Values, v)
+			vals = append(vals, []int{int(f[0]), int(f[1])})
+		}
+		a["vals"] = vals
+		if rng.Intn(4) != 0 {
+			degS := []string{"", "b", "#", "bb"}[rng.Intn(4)] + fmt.Sprint(1+rng.Intn(12))
+			d, err := note.ParseDegree(degS)
+			if err != nil {
+				return nil, err
+			}
+			sym := symNames[rng.Intn(len(symNames))]
+			cd, ok := cmap.GetChord(sym)
+			if !ok {
+				return nil, fmt.Errorf("no chord %q", sym)
+			}
+			var base *note.Degree
+			if rng.Intn(3) == 0 {
+				bS := []string{"", "b", "#"}[rng.Intn(3)] + fmt.Sprint(1+rng.Intn(9))
+				b, err := note.ParseDegree(bS)
+				if err != nil {
+					return nil, err
+				}
+				base = &b
+				a["base"] = codes(bS)
+			}
+			c := op.NewChord(d, cd, base)
+			in.Chord = &c
+			a["rest"], a["deg"], a["sym"] = false, codes(degS), sym
+		}
+		if rng.Intn(4) == 0 {
+			b, _ := op.NewBPM(uint(30 + rng.Intn(200)))
+			in.BPM = &b
+			a["bpm"] = int(b)
+		}
+		if rng.Intn(5) == 0 {
+			m, _ := op.NewMeter(uint(1+rng.Intn(12)), []uint{2, 4, 8}[rng.Intn(3)])
+			in.Meter = &m
+			a["meter"] = []int{int(m.Num), int(m.Denom)}
+		}
+		if rng.Intn(4) == 0 {
+			vs := []string{"pp", "p", "mp", "mf", "f", "ff"}[rng.Intn(6)]
+			v := op.NewDynamicSign(vs)
+			in.Velocity = &v
+			a["vel"] = vs
+		}
+		if rng.Intn(3) == 0 {
+			ks := keyNames[rng.Intn(len(keyNames))]
+			k, err := op.ParseKey(ks)
+			if err != nil {
+				return nil, err
+			}
+			in.Key = &k
+			a["key"] = codes(ks)
+		}
+		if rng.Intn(3) == 0 {
+			m := op.NewMeta()
+			for _, kk := range []string{"txt", "lic", "mrk"} {
+				if rng.Intn(2) == 0 {
+					t := []string{"x", "hello", "é♭"}[rng.Intn(3)]
+					m.Set(kk, t)
+					a[kk] = ints([]byte(t))
+				}
+			}
+			if rng.Intn(3) == 0 {
+				m.Set("bpm", "120") // metadata that is not a text: the cell is updated, nothing is emitted
+			}
+			in.Meta = m
+		}
+		ins = append(ins, in)
+		abs = append(abs, a)
+	}
+	w := &recWriter{}
+	pw := play.NewWriter(cmap, func(k op.Key) play.Key { return play.NewKey(k, cmap) })
+	err := pw.Write(w, ins)
+	return rec{"kind": "ptrace", "doc": abs, "calls": w.calls, "ok": err == nil}, nil
+}
+
 func main() {
 	var seed int64
 	var tier, out string
@@ -144,11 +287,53 @@ func main() {
 	_ = flag.String("repo", "", "")
 	_ = flag.String("replay", "", "")
 	flag.Parse()
+	_ = os.MkdirAll(out, 0o755)
+	if flag.Arg(0) == "play" {
+		b := chord.NewBuilder()
+		for _, x := range chord.BasicAttributes() {
+			b.Attribute(x)
+		}
+		for _, x := range chord.BasicChords() {
+			b.Chord(x)
+		}
+		cmap, err := b.Build()
+		if err != nil {
+			fmt.Fprintln(os.Stderr, err)
+			os.Exit(2)
+		}
+		count := 300
+		if tier == "thorough" {
+			count = 4000
+		}
+		rng := rand.New(rand.NewSource(seed))
+		recs := []any{}
+		for i := 0; i < count; i++ {
+			r, err := playTrace(rng, cmap)
+			if err != nil {
+				fmt.Fprintln(os.Stderr, "play trace:", err)
+				os.Exit(2)
+			}
+			recs = append(recs, r)
+		}
+		f, _ := os.Create(filepath.Join(out, "records.ndjson"))
+		bw := bufio.NewWriter(f)
+		enc := json.NewEncoder(bw)
+		for _, r := range recs {
+			_ = enc.Encode(r)
+		}
+		bw.Flush()
+		f.Close()
+		meta := map[string]any{"evaluations": count, "distinct_nontrivial": count, "traces": count, "exhaustive": false,
+			"rule":    "seeded instance lists (chords with any degree/symbol/bass, rests, settings and texts on any instance) handed in-process to the real play.MIDIWriter.Write with a recording midix.Writer; a trace is the sequence of writer calls",
+			"samples": recs[:1], "files": []string{"records.ndjson"}}
+		bb, _ := json.MarshalIndent(meta, "", " ")
+		_ = os.WriteFile(filepath.Join(out, "meta.json"), bb, 0o644)
+		return
+	}
 	if flag.Arg(0) != "writer" {
-		fmt.Fprintln(os.Stderr, "usage: vinproc [flags] writer")
+		fmt.Fprintln(os.Stderr, "usage: vinproc [flags] writer|play")
 		os.Exit(2)
 	}
-	_ = os.MkdirAll(out, 0o755)
 	count, maxCalls := 60, 12
 	if tier == "thorough" {
 		count, maxCalls = 600, 40
